@@ -69,9 +69,9 @@ func (m *lockModel) due(e int64) []string {
 func TestC09Stateful(t *testing.T) {
 	theT = t
 	col := ev.New("C09", "stateful",
-		"rapid state machine (starting at epoch 0, 126, 254, 65534 or 2^24) over mint/lock/burn/transferX/transfer/netmap tick/direct newEpoch with until in {cur-1,cur,cur+1,cur+2,cur+5}, zero/partial/full amounts and shared until values; full balance+lock model compared with the raw account scan, supply and unlock notifications after every step; non-trivial = a tick released a lock AND the history also has a partial burn of a lock, a tick that left a pending lock alone, or >=2 locks released by one tick",
+		"rapid state machine (starting at epoch 0, 126, 254, 65534 or 2^24) over mint/lock (one in five from a live lock account: chains of locks)/burn/transferX/transfer/netmap tick/direct newEpoch with until in {cur-1,cur,cur+1,cur+2,cur+5}, zero/partial/full amounts and shared until values; full balance+lock model compared with the raw account scan, supply and unlock notifications after every step; non-trivial = a tick released a lock AND the history also has a partial burn of a lock, a tick that left a pending lock alone, or >=2 locks released by one tick",
 		"lock targets are fresh addresses", "lock until >= 1 (0 is the contract's not-a-lock marker; the Inner Ring never produces it)",
-		"lock sources are ordinary accounts (not lock accounts)", "epoch ticks reach Balance through Netmap's subscriber fan-out or by the Alphabet calling Balance.newEpoch directly")
+		"locks due at one tick are released in the key order of their accounts (the order in which the platform iterates storage); it matters only for a chain of locks whose links are due at the same tick", "epoch ticks reach Balance through Netmap's subscriber fan-out or by the Alphabet calling Balance.newEpoch directly")
 	runRapid(t, col, func(rt *rapid.T, h *ev.History) {
 		n := rapid.SampledFrom([]int{1, 1, 3}).Draw(rt, "n")
 		drawValidators(rt, h, n)
@@ -168,6 +168,14 @@ func TestC09Stateful(t *testing.T) {
 				m.get(b).SetInt64(0)
 				pb := m.get(l.parent)
 				pb.Add(pb, amt)
+				if m.gone[hex(l.parent)] {
+					// the source was itself a lock account that is gone by now (released earlier in this very tick - accounts
+					// are visited in key order - or before): the funds return to its address all the same, as a plain account
+					delete(m.gone, hex(l.parent))
+					h.Mark("returned-to-a-released-outer-lock")
+				} else if _, outer := m.locks[hex(l.parent)]; outer {
+					h.Mark("returned-to-a-live-outer-lock")
+				}
 			}
 			return due, rem
 		}
@@ -199,6 +207,22 @@ func TestC09Stateful(t *testing.T) {
 				m.supply.Add(m.supply, amt)
 			case "lock":
 				from := rapid.SampledFrom(users).Draw(rt, "from")
+				// one lock in five takes its funds from a live lock account (a chain of locks): the inner one returns to the
+				// outer one, which returns what it then holds to its own source
+				if rapid.IntRange(0, 4).Draw(rt, "fromALockAccount") == 0 {
+					var live []string
+					for k := range m.locks {
+						kb, _ := hexDecode(k)
+						if m.get(kb).Sign() > 0 {
+							live = append(live, k)
+						}
+					}
+					sort.Strings(live)
+					if len(live) > 0 {
+						from, _ = hexDecode(rapid.SampledFrom(live).Draw(rt, "outerLock"))
+						h.Mark("lock-from-a-lock-account")
+					}
+				}
 				b := m.get(from)
 				cls := rapid.SampledFrom([]string{"zero", "one", "half", "all", "all+1"}).Draw(rt, "amtClass")
 				var amt *big.Int
